@@ -57,10 +57,10 @@ class C19(Property):
             "BaseException; with-bodies raising an Exception or a BaseException; the inner cacher's rmv ok / raising) on a real "
             "ConcurrentCacher(instrumented MemoryCacher, recording list, scheduler lock) under a baton scheduler (random or "
             "preemption-bounded schedules); on a hang the wait-for edges of the real threads are compared with the model's wait-for graph; plus DiskCacher cases, alone and "
-            "wrapped in ConcurrentCacher (getter raising after j lines, file truncated at byte n, zero-length "
+            "wrapped in ConcurrentCacher (streaming getter raising an Exception / KeyboardInterrupt / SystemExit / GeneratorExit after j lines, file truncated at byte n, zero-length "
             "file), a few free-running runs on a real multiprocessing RawArray+Lock, OpenmlSource.read against an instrumented 3-permit "
             "openml_semaphore with the fake data set cached before / by a peer during acquire() / served on demand and full, abandoned and raising "
-            "reads (permits and cacher locks must be back afterwards), and reader-depth probes (127-400 simultaneous read locks on one "
+            "reads (permits and cacher locks must be back afterwards), a key->slot probe across interpreters with different PYTHONHASHSEED, and reader-depth probes (127-400 simultaneous read locks on one "
             "slot of the lock table built by CobaMultiprocessor, by nesting or by threads at a barrier). non-trivial = a scheduled run in which at least "
             "two threads operated on one index and a write lock was taken, or a disk case with a cut strictly inside the entry")
     trusted_base = [
@@ -174,7 +174,8 @@ class C19(Property):
         L2 = ["second", "value"][: rng.randint(1, 2)]
         r = rng.below(100)
         if r < 35:
-            cut = ["getter", rng.randint(0, len(L1))] + (["base"] if rng.chance(0.2) else [])
+            cut = ["getter", rng.randint(0, len(L1)), rng.wchoice([(40, "exception"), (20, "KeyboardInterrupt"), (12, "SystemExit"),
+                                                                    (12, "GeneratorExit"), (16, "base")])]
         elif r < 40:
             cut = ["getter-call"]
         elif r < 85:
@@ -219,7 +220,10 @@ class C19(Property):
 
     def generate(self, rng, tier):
         r = rng.below(1000)
-        if r < 3:
+        if r < 1:
+            return {"kind": "index", "keys": [rng.choice(["a", "b", "k%d" % rng.randint(0, 999), "openml_%06d_data" % rng.randint(1, 99999), rng.randint(0, 10 ** 6)])
+                                              for _ in range(rng.randint(1, 6))], "hashseeds": [rng.randint(1, 1000)]}
+        if r < 4:
             return self.gen_depth_case(rng, tier)
         if r < 23:
             return self.gen_openml_case(rng, tier)
@@ -273,6 +277,11 @@ class C19(Property):
         cs.append({"kind": "sched", "keys": [p0, p1], "parts": 1, "seed": 0, "sched": rnd,
                    "progs": [[[["gs", 0, 1], ["gs", 1, 2]]], [[["gs", 0, 3]]]]})
         # disk boundary cases
+        for kind in ("exception", "KeyboardInterrupt", "SystemExit", "GeneratorExit", "base"):
+            for p_ in (0, 1, 2):
+                for conc in (False, True):
+                    cs.append({"kind": "disk", "lines": ["a,b", "c"], "lines2": ["second"], "cut": ["getter", p_, kind], "conc": conc})
+        cs.append({"kind": "index", "keys": ["a", "openml_042693_arff", "k74", 1, 42693, [1, "x"], "é"], "hashseeds": [1, 2]})
         for cut in (["getter", 0], ["getter", 1], ["getter", 2], ["getter", 1, "base"], ["getter-call"], ["zero"], ["none"],
                     ["truncate", 0], ["truncate", 1], ["truncate", 10], ["truncate", 20], ["truncate", 1000]):
             cs.append({"kind": "disk", "lines": ["a,b", "c"], "lines2": ["second"], "cut": cut})
@@ -336,6 +345,8 @@ class C19(Property):
             return self.eval_depth(case, driver)
         if kind == "openml":
             return self.eval_openml(case, driver)
+        if kind == "index":
+            return self.eval_index(case, driver)
         return self.eval_sched(case, driver)
 
     def eval_sched(self, case, driver):
@@ -509,6 +520,8 @@ class C19(Property):
         L1 = [ln.rstrip("\r\n") for ln in case["lines"]]
         L2 = [ln.rstrip("\r\n") for ln in case["lines2"]]
         tags.append("disk:" + cut[0])
+        if cut[0] == "getter":
+            tags.append("disk-getter-raises:" + (cut[2] if len(cut) > 2 else "exception"))
         conc = bool(case.get("conc"))
         if conc:
             tags.append("disk-through-concurrent")
@@ -520,7 +533,9 @@ class C19(Property):
             if o["stage1"][0] != "raised":
                 fails.append(F("B", "getter raised part-way but get_set returned %s" % (o["stage1"],), "disk-getter-failure-swallowed"))
             if s2[0] == "value" and s2[1] != L2:
-                fails.append(F("B", what + " -- a partial entry left by the failed write was served", "disk-partial-entry-served"))
+                fails.append(F("B", what + " -- the getter raised %s after %s of %d lines; the partial entry left by that failed write was served as the "
+                               "complete value without calling the getter" % (cut[2] if len(cut) > 2 else "an exception", cut[1] if cut[0] == "getter" else 0, len(L1)),
+                               "disk-partial-entry-served"))
         elif cut[0] == "truncate":
             full = o.get("full_size", 0)
             nb = o.get("cut_at", 0)
@@ -581,6 +596,27 @@ class C19(Property):
             if n_ok > 1 + o["rmv_calls"].get(k, 0):
                 fails.append(F("B", "getter for key #%s completed %d times with %d rmv calls" % (k, n_ok, o["rmv_calls"].get(k, 0)), "mp-single-flight"))
         return {"fails": fails, "nontrivial": False, "tags": tags, "impl": o, "model": None}
+
+    def eval_index(self, case, driver):
+        fails, tags = [], ["index-across-interpreters"]
+        o = R.run_index(case)
+        for oth in o["others"]:
+            if oth["slots"] is None:
+                fails.append(F("H", "helper interpreter failed: %s" % oth["err"], "harness-error"))
+                continue
+            diff = [(case["keys"][i], o["here"][i], oth["slots"][i]) for i in range(len(case["keys"])) if o["here"][i] != oth["slots"][i]]
+            if diff:
+                k, a, b = diff[0]
+                fails.append(F("B", "ConcurrentCacher maps key %r to lock slot %d in this interpreter but to slot %d in an interpreter started with "
+                               "PYTHONHASHSEED=%s (%d of %d keys differ): spawned workers sharing the lock array would lock different slots for the same entry, "
+                               "so readers and writers of one key no longer exclude each other" % (k, a, b, oth["hashseed"], len(diff), len(case["keys"])),
+                               "slot-differs-across-interpreters"))
+                break
+        if any(not (0 <= x < 2 ** 16) for x in o["here"]):
+            fails.append(F("B", "a key is mapped outside the 2^16-entry lock table: %s" % o["here"], "slot-out-of-range"))
+        if not fails and o["here"] != o["expected"]:
+            fails.append(F("A", "key -> slot: implementation %s, model (16-bit blake2b of str(key)) %s" % (o["here"], o["expected"]), "A:index"))
+        return {"fails": fails, "nontrivial": True, "tags": tags, "impl": o, "model": {"expected": o["expected"]}}
 
     def eval_openml(self, case, driver):
         fails, tags = [], ["openml-semaphore"]
@@ -681,7 +717,7 @@ class C19(Property):
     def snippet(self, case):
         if case is None:
             return ""
-        fn = {"sched": "run_sched", "disk": "run_disk", "mp": "run_mp", "depth": "run_depth", "openml": "run_openml"}[case.get("kind", "sched")]
+        fn = {"sched": "run_sched", "disk": "run_disk", "mp": "run_mp", "depth": "run_depth", "openml": "run_openml", "index": "run_index"}[case.get("kind", "sched")]
         return ("# runs the case on the real coba cachers (threads under the baton scheduler of /verif/harness/props/c19_sched.py)\n"
                 "import sys, json; sys.path[:0]=[%r, '/verif/harness']\nfrom props.c19_run import %s\n"
                 "case = json.loads(%r)\nr = %s(case)\nprint(json.dumps({k: v for k, v in r.items() if k != 'events'}, indent=1, default=str))\n"
